@@ -11,7 +11,7 @@ import (
 
 // peerLoop is the scripted peer of the schedule-exploration scenarios: it
 // answers every request at once with its (first) acknowledgement.
-func peerLoop(w *ClientWorld) {
+func peerLoop(w *ClientWorld, holdTerminal *bool, appDone *bool) {
 	buf := make([]byte, 65536)
 	var rx []byte
 	for {
@@ -56,11 +56,20 @@ func peerLoop(w *ClientWorld) {
 							}
 						}
 					}
+					if term && holdTerminal != nil && *holdTerminal {
+						// this peer sends terminal acknowledgements only once the sending
+						// calls have returned (so every request is registered for certain)
+						vsched.Do(&vsched.Op{Kind: vsched.KNote, Note: "peer waits for the sending calls to return", En: func() bool { return *appDone }})
+					}
 					w.Srv.Conn.Write(refcodec.Encode(ack))
 					w.Srv.SentAck++
 				}
-				// remember the id each request went out with
+				// remember the id each request went out with (a PUBREL belongs to a request
+				// that is known already)
 				for _, r := range w.Requests {
+					if p.Type == refcodec.PUBREL {
+						break
+					}
 					if !r.seen && kindMatches(r.Kind, p.Type) && (p.Type != refcodec.PUBLISH || (r.Kind == "pub1" && p.QoS == 1) || (r.Kind == "pub2" && p.QoS == 2) || (r.Kind == "pub0" && p.QoS == 0)) {
 						r.seen = true
 						r.wireID = p.ID
@@ -119,7 +128,12 @@ func c12sched(c *core.Ctx) {
 			c.Rep.KnownHits[KnownSendRace] += raceHits
 		}
 	}()
-	progs := [][]string{{"pub1"}, {"pub2"}, {"sub"}, {"unsub"}, {"ping"}, {"pub1", "pub1"}, {"pub0", "pub2"}, {"sub", "pub1"}, {"ping", "ping"}}
+	progs := [][]string{{"pub1"}, {"pub2"}, {"sub"}, {"unsub"}, {"ping"}, {"pub1", "pub1"}, {"pub0", "pub2"}, {"sub", "pub1"}, {"ping", "ping"},
+		// the same with a peer that holds every terminal acknowledgement back until the
+		// sending calls have returned: non-terminal ones (PUBREC) still race the
+		// registration, but a completion that does not fire cannot be the listed
+		// write-before-register finding then
+		{"late", "pub2"}, {"late", "pub1"}, {"late", "pub2", "pub2"}, {"late", "pub0", "pub2"}}
 	for _, prog := range progs {
 		if !c.Mine() {
 			continue
@@ -129,6 +143,10 @@ func c12sched(c *core.Ctx) {
 		}
 		prog := prog
 		name := fmt.Sprintf("sender-race %v", prog)
+		late := prog[0] == "late"
+		if late {
+			prog = prog[1:]
+		}
 		body := func() {
 			w := NewClientWorld()
 			if !w.Connected("cid") {
@@ -136,8 +154,10 @@ func c12sched(c *core.Ctx) {
 			}
 			w.Srv.Take()
 			vsched.Mark()
-			vsched.Go("peer", func() { peerLoop(w) })
+			appDone := false
+			vsched.Go("peer", func() { peerLoop(w, &late, &appDone) })
 			vsched.Go("app", func() {
+				defer func() { appDone = true }()
 				for i, k := range prog {
 					var err error
 					switch k {
@@ -169,6 +189,10 @@ func c12sched(c *core.Ctx) {
 				if r.Completed == 0 && r.Kind != "pub0" && w.Cl.VerifPending()[r.Kind] > 0 {
 					// the signature of the listed finding: the request sits in its ack
 					// queue, registered only after its acknowledgement had been processed
+					if late {
+						vsched.Failf("the completion callback of request %d (%s) never fires although its terminal acknowledgement was sent only after the sending call had returned", r.Idx, r.Kind)
+						return
+					}
 					if raceKnown {
 						raceHits++
 						continue
